@@ -34,7 +34,7 @@ ASSUMPTIONS = ['sample rates are powers of two and bin sizes integer sample coun
                'precondition and are not generated']
 
 PARAMS = [(1, 0), (1, 1), (2, 1), (1, 3), (3, 2)]
-RATES = [1.0, 2.0, 4.0]
+RATES = [1.0, 2.0, 4.0, 10.0, 30000.0]      # (non-dyadic rates are used only for trains whose every time * rate is exact)
 IDS = [3, 0, 7, 5]       # label j -> cluster id (gappy, unsorted)
 IDS_BIG = [300, 7, 100000, 41]   # sparse, large ids (lookup much larger than the data)
 UNUSED = 9
@@ -73,7 +73,7 @@ def run_shard(desc, ctx):
                 continue
             perm = perms[k][idx // desc['n'] % len(perms[k])]
             case = {'samples': list(train), 'labels': list(labels), 'k': k, 'bin': b, 'half': h,
-                    'rate': RATES[(idx // 7) % 3], 'perm': list(perm),
+                    'rate': RATES[(idx // 7) % 5], 'perm': list(perm),
                     'unused_pos': (idx // 3) % (k + 1), 'windowed': False, 'bigids': idx % 5 == 0}
             run_case(case, ctx)
     # float32 time arrays late in a recording (sample numbers beyond 2**24) on an exactly representable grid
@@ -126,7 +126,7 @@ def run_shard(desc, ctx):
         labels = rng.integers(0, k, size=n).tolist()
         b, h = [(1, 3), (2, 4), (3, 2), (5, 1), (1, 10), (4, 0)][int(rng.integers(0, 6))]
         case = {'samples': samples, 'labels': labels, 'k': k, 'bin': b, 'half': h,
-                'rate': RATES[int(rng.integers(0, 3))], 'perm': rng.permutation(k).tolist(),
+                'rate': RATES[int(rng.integers(0, 5))], 'perm': rng.permutation(k).tolist(),
                 'unused_pos': int(rng.integers(0, k + 1)), 'windowed': True, 'bigids': bool(rng.integers(0, 2))}
         run_case(case, ctx)
 
@@ -256,6 +256,11 @@ def run_case(case, ctx):
         cdt = 'uint32'
     spike_clusters = np.array([ids[int(l)] for l in labels], dtype=cdt)
     times = samples / rate
+    bs_ = b / rate
+    if not case.get('f32') and not (np.array_equal(times * rate, samples) and bs_ * rate == b and int(rate * bs_) == b and
+                                    (h == 0 or int(.5 * (2 * h * bs_) / bs_) == h)):
+        rate = 2.0                      # outside the quantifier (time * rate not exact): fall back to a dyadic rate
+        times = samples / rate
     if case.get('f32'):
         times = times.astype(np.float32)
         assert np.array_equal(times.astype(np.float64) * rate, samples)      # exactly representable: in the quantifier
